@@ -472,3 +472,39 @@ Proof.
     destruct (last (x :: tr)) eqn:E; [done|]. by apply last_None in E.
   - cbn in Hnh. by apply Forall_cons in Hnh as [? _].
 Qed.
+
+(* ---- Stop while an operation is in flight (holds its fid's lock inside a file-system call) ---- *)
+Lemma B_set_locked s s' f b :
+  refs s' = alter (set_locked b) f (refs s) → ∀ f' e', B s' f' e' ↔ B s f' e'.
+Proof.
+  unfold B. intros -> f' e'. destruct (decide (f' = f)) as [->|Hne].
+  - rewrite lookup_alter. destruct (refs s !! f) as [sf|]; cbn; split.
+    + intros (x & d & [= <-] & H). eauto.
+    + intros (x & d & [= <-] & H). eauto.
+    + by intros (x & d & ? & _).
+    + by intros (x & d & ? & _).
+  - by rewrite lookup_alter_ne.
+Qed.
+
+Lemma G_set_locked s f b : G s → G (set_refs (alter (set_locked b) f (refs s)) s).
+Proof. intros HG. eapply G_same; [..|exact HG]; sproj; try done. by eapply B_set_locked. Qed.
+
+Lemma inflight_stop_G s o ts f :
+  WF s → G s → op_simple_fid o = Some f →
+  let s3 := (inflight_stop s o ts).2.1.1 in
+  G s3 ∧ (∀ f' e, ¬ B s3 f' e) ∧
+  bound_ever s3 = bound_ever (sstep s o ts).1.1 ∧
+  (∀ e, e ∈ bound_ever s3 → e ∈ rel s3).
+Proof.
+  intros Hwf HG Hf. assert (Ho : is_stop o = false) by (by destruct o).
+  pose proof (step_G s o ts Hwf HG Ho) as HG1.
+  unfold inflight_stop. destruct (sstep s o ts) as [[s1 r] cs]. cbn in HG1. rewrite Hf.
+  pose proof (stop_G (lock f s1) (G_set_locked s1 f true HG1)) as (HG2 & Hnb & Hbe & Hall & _).
+  destruct (do_stop (lock f s1)) as [[s2 r2] cs2]. cbn in *.
+  assert (HB3 : ∀ f' e', B (unlock f s2) f' e' ↔ B s2 f' e') by (by eapply B_set_locked).
+  split_and!.
+  - by apply G_set_locked.
+  - intros f' e H. apply HB3 in H. by apply Hnb in H.
+  - done.
+  - intros e He. by apply Hall.
+Qed.
